@@ -961,11 +961,11 @@ def _do_app_op(hist, op):
         rec = w.api('disconnect', tag=op)
         rec['table_before'] = hist.snapshot_sessions()
         return
-    sid = _resolve_sid(hist, op)
+    sid = _resolve_sid(hist, op) if name != 'send_shared' else ''
     if sid is None:
         hist.notes.append(('app op skipped (no sid yet)', op))
         return
-    before = w.peek(sid)
+    before = w.peek(sid) if sid else None
     if name == 'send':
         val = R.spec_to_value(op['data'])
         rec = w.api('send', sid, val, tag=op)
